@@ -36,6 +36,17 @@ def _true(e, kw):
     v = Q.kwarg(e.call, kw)
     if isinstance(v, ast.Constant):
         return v.value is True
+    if v is None:
+        # forwarded through the helper's own **kwargs: what the caller of
+        # the helper passed
+        va = e.fn.node.args.kwarg
+        for k in e.call.keywords:
+            if k.arg is None and isinstance(k.value, ast.Name) and \
+                    va is not None and k.value.id == va.arg and \
+                    len(e.path) >= 2 and isinstance(e.path[-2][1], ast.Call):
+                pv = Q.kwarg(e.path[-2][1], kw)
+                if isinstance(pv, ast.Constant):
+                    return pv.value is True
     # a parameter the (only analysed) caller binds to True
     return v is not None and direct(e.arg(kw=kw)) == {'const:True'}
 
